@@ -308,25 +308,10 @@ impl Entry {
     pub fn as_bytes(&self) -> Vec<u8> {
         let mut bytes = Vec::new();
         for c in &self.checksums {
-            bytes.extend_from_slice(
-                format!(
-                    "{} ({}) = {}\n",
-                    c.digest,
-                    self.filename.display(),
-                    c.hash
-                )
-                .as_bytes(),
-            );
+            bytes.extend_from_slice(&checksum_line(c, &self.filename));
         }
         if let Some(size) = self.size {
-            bytes.extend_from_slice(
-                format!(
-                    "Size ({}) = {} bytes\n",
-                    self.filename.display(),
-                    size
-                )
-                .as_bytes(),
-            );
+            bytes.extend_from_slice(&size_line(size, &self.filename));
         }
         bytes
     }
@@ -683,44 +668,39 @@ impl Distinfo {
 
         for q in self.distfiles.values() {
             for c in &q.checksums {
-                bytes.extend_from_slice(
-                    format!(
-                        "{} ({}) = {}\n",
-                        c.digest,
-                        q.filename.display(),
-                        c.hash
-                    )
-                    .as_bytes(),
-                );
+                bytes.extend_from_slice(&checksum_line(c, &q.filename));
             }
             if let Some(size) = q.size {
-                bytes.extend_from_slice(
-                    format!(
-                        "Size ({}) = {} bytes\n",
-                        q.filename.display(),
-                        size
-                    )
-                    .as_bytes(),
-                );
+                bytes.extend_from_slice(&size_line(size, &q.filename));
             }
         }
 
         for q in self.patchfiles.values() {
             for c in &q.checksums {
-                bytes.extend_from_slice(
-                    format!(
-                        "{} ({}) = {}\n",
-                        c.digest,
-                        q.filename.display(),
-                        c.hash
-                    )
-                    .as_bytes(),
-                );
+                bytes.extend_from_slice(&checksum_line(c, &q.filename));
             }
         }
 
         bytes
     }
+}
+
+/*
+ * File names are not necessarily valid UTF-8, so they are written out as the
+ * raw bytes that were parsed rather than through a lossy conversion.
+ */
+fn checksum_line(c: &Checksum, filename: &Path) -> Vec<u8> {
+    let mut line = format!("{} (", c.digest).into_bytes();
+    line.extend_from_slice(filename.as_os_str().as_bytes());
+    line.extend_from_slice(format!(") = {}\n", c.hash).as_bytes());
+    line
+}
+
+fn size_line(size: u64, filename: &Path) -> Vec<u8> {
+    let mut line = b"Size (".to_vec();
+    line.extend_from_slice(filename.as_os_str().as_bytes());
+    line.extend_from_slice(format!(") = {} bytes\n", size).as_bytes());
+    line
 }
 
 impl Line {
